@@ -450,7 +450,18 @@ def _quiet():
     logging.getLogger("pyflyby").setLevel(logging.CRITICAL)
 
 
-def run_tool(kind, src, dbtext, flags, params, tmap=None, filename=None):
+def make_db(c):
+    """The database of a case: the text given to ImportDB(...), or - when the case carries "dbroot" (a directory
+    tree materialised by the caller, PYFLYBY_PATH set) - whatever ImportDB.get_default finds for the target file,
+    i.e. the way the tool itself obtains it."""
+    from pyflyby._importdb import ImportDB
+    if c.get("dbroot"):
+        from pyflyby._file import Filename
+        return ImportDB.get_default(Filename(c["filename"]))
+    return ImportDB(c.get("db", ""))
+
+
+def run_tool(kind, src, dbtext, flags, params, tmap=None, filename=None, dbobj=None):
     """One call of a rewriter; returns {"out": text} or {"exc": class name}."""
     from pyflyby._parse import PythonBlock
     from pyflyby._importdb import ImportDB
@@ -460,7 +471,7 @@ def run_tool(kind, src, dbtext, flags, params, tmap=None, filename=None):
     p = _params(params)
     try:
         if kind == "tidy":
-            out = S.fix_unused_and_missing_imports(block, db=ImportDB(dbtext), params=p, **flags)
+            out = S.fix_unused_and_missing_imports(block, db=(dbobj if dbobj is not None else ImportDB(dbtext)), params=p, **flags)
         elif kind == "reformat":
             out = S.reformat_import_statements(block, params=p)
         elif kind == "star":
@@ -497,8 +508,9 @@ def impl_case(c):
     kind = c["kind"]
     res = {"kind": kind}
     flags = dict(c.get("flags") or {})
+    dbobj = make_db(c) if kind == "tidy" else None
     with Capture() as cap:
-        r = run_tool(kind, c["src"], c.get("db", ""), flags, c.get("params"), c.get("tmap"), c.get("filename"))
+        r = run_tool(kind, c["src"], c.get("db", ""), flags, c.get("params"), c.get("tmap"), c.get("filename"), dbobj=dbobj)
     res.update(r)
     res["renders"] = cap.renders
     res["snaps"] = [{"blocks": s, "text": t} for _, s, t in cap.snaps]
@@ -517,7 +529,7 @@ def impl_case(c):
                 allimps.update(map(tuple, b["imports"]))
                 allimps.update(map(tuple, b["ordered"] or []))
     if kind == "tidy":
-        db = ImportDB(c.get("db", ""))
+        db = dbobj
         known = {}
         for _, nm in (cap.scan or {}).get("missing", []):
             h = nm.split(".")[0]
